@@ -73,10 +73,10 @@ MANIFEST_TEXT = ('Exhaustive enumeration against dense NumPy arrays. quick: ever
                  '3 and 4 contigs of size 1..2 (value patterns); every multiset of <= 2 intervals (sorted and reversed) as mask and '
                  'pileup; each with to_dict / get_data / array[contig].to_bedgraph / sum / histogram / str and a menu of derived '
                  'expressions; every ordered pair of tracks x {+,-,*,<,>,==} and of masks x {&,|} on genomes (3), (2,2), (1,2,1); BFS '
-                 'closure of depth 2 over {+,-,*,<,>,==,&,|,~, scalars 0,1,2} from 3 root sets. thorough: all value assignments from '
-                 '{0,1,2} on 1..2 contigs of size 1..3, 3 contigs of size 1..3, 1..2 contigs up to size 5, 3 contigs with one size-4 '
-                 'contig, 4 contigs of size 1..2; <= 3 intervals in every order; pairs on 7 genomes; depth-2 closure from 12 root sets '
-                 'and depth 3 (every depth-2 result x every leaf) from 4.')
+                 'closure of depth 2 over {+,-,*,<,>,==,&,|,~, scalars 0,1,2} from 6 root sets. thorough: all value assignments from '
+                 '{0,1,2} on 1..2 contigs of size 1..3, 3 contigs of size 1..3 (value patterns), 1..2 contigs up to size 5, 3 contigs with one size-4 '
+                 'contig, 4 contigs of size 1..2; <= 3 intervals in every order; pairs on 7 genomes; depth-2 closure and depth 3 '
+                 '(every depth-2 result x every leaf, both operand orders, and ~) from 12 root sets.')
 MANIFEST_NOTE = ('Trusted: NumPy (it is the oracle: the same operation on dense arrays), CPython, engine/observe.py, '
                  'models/genome.py. npstructures run-length arrays are NOT trusted: they are exercised as part of the library\'s '
                  'behaviour.')
@@ -103,10 +103,9 @@ def _bg_slices(tier, seed):
         ('a:<=2 contigs, size<=3', g23,
          [('int', ('all', (0, 1, 2))), ('float', ('all', (0, 1, 2))), ('bool', ('all', (1, 0)))]),
         ('b:3 contigs, size<=3', M.genomes(3, 3, 3),
-         [('int', ('pattern', (1, 2))), ('int', ('pattern', (1,))), ('int', ('pattern', (0, 1))), ('int', ('pattern', (1, 0))),
-          ('float', ('pattern', (1, 2))), ('bool', ('pattern', (1,)))]),
+         [('int', ('pattern', (1, 2))), ('int', ('pattern', (0, 1))), ('float', ('pattern', (1, 2))), ('bool', ('pattern', (1,)))]),
         ('c:<=2 contigs, a contig of size 4 or 5', [g for g in M.genomes(2, 5) if max(g) >= 4],
-         [('int', ('pattern', (1, 2))), ('int', ('pattern', (0, 1))), ('float', ('pattern', (2, 1))), ('bool', ('pattern', (1,)))]),
+         [('int', ('pattern', (1, 2))), ('float', ('pattern', (2, 1))), ('bool', ('pattern', (1,)))]),
         ('d:3 contigs, exactly one of size 4, others <=3',
          [g for g in M.genomes(3, 4, 3) if sorted(g)[-1] == 4 and sorted(g)[-2] <= 3], [('int', ('pattern', (1, 2)))]),
         ('e:4 contigs, size<=2', M.genomes(4, 2, 4),
@@ -119,7 +118,9 @@ def _iv_slices(tier, seed):
     if tier == 'quick':
         return [('a:<=2 contigs size<=3, 3 contigs size<=2; <=2 intervals', M.genomes(2, 3) + M.genomes(3, 2, 3), 2, 'sorted+reversed'),
                 ('b:1 contig size 4; <=3 intervals', [(4,)], 3, 'sorted+reversed')]
-    return [('a:<=3 contigs size<=3; <=3 intervals', M.genomes(3, 3), 3, 'all'),
+    return [('a1:<=2 contigs size<=3; <=3 intervals', M.genomes(2, 3), 3, 'all'),
+            ('a2:3 contigs size<=3; <=2 intervals', M.genomes(3, 3, 3), 2, 'all'),
+            ('a3:3 contigs size<=2; <=3 intervals', M.genomes(3, 2, 3), 3, 'all'),
             ('b:<=2 contigs up to size 5 (one >=4); <=2 intervals', [g for g in M.genomes(2, 5) if max(g) >= 4], 2, 'sorted+reversed'),
             ('c:4 contigs size<=2; <=2 intervals', M.genomes(4, 2, 4), 2, 'sorted+reversed')]
 
@@ -132,11 +133,11 @@ def _pairs_slices(tier, seed):
                 ((1, 2, 1), [('int', ('pattern', (1, 2)))], 1)]
     return [((3,), [('int', ('all', (0, 1, 2))), ('float', ('pattern', (1, 2)))], 3),
             ((4,), [('int', ('all', (1, 2)))], 2),
-            ((2, 2), [('int', ('all', (1, 2))), ('float', ('pattern', (2, 1)))], 3),
+            ((2, 2), [('int', ('all', (1, 2))), ('float', ('pattern', (2, 1)))], 2),
             ((1, 2, 1), [('int', ('all', (1, 2)))], 2),
             ((2, 1), [('int', ('all', (0, 1, 2)))], 2),
-            ((3, 3), [('int', ('pattern', (1, 2)))], 1),
-            ((1, 1, 1, 1), [('int', ('all', (0, 1, 2)))], 2)]
+            ((3, 2), [('int', ('pattern', (1, 2)))], 1),
+            ((1, 1, 1, 1), [('int', ('all', (1, 2)))], 2)]
 
 
 def _bgspec(kind, recs):
@@ -172,7 +173,7 @@ def _deep_plan(tier, seed):
         rot = seed % 3
         idx = [0, 1, 2, 3 + rot, 6 + rot, 9 + rot]
         return [(i, 2) for i in idx]
-    return [(i, 3 if i < 4 else 2) for i in range(len(DEEP_ROOTSETS))]
+    return [(i, 3) for i in range(len(DEEP_ROOTSETS))]
 
 
 def bounds(tier, seed):
@@ -205,8 +206,8 @@ def _bg_count(genomes_, modes):
     return n
 
 
-COST_MS = {'bg': 17.0, 'iv': 14.0, 'pair': 1.6}
-TARGET_S = {'quick': 14.0, 'thorough': 100.0}
+COST_MS = {'bg': 21.0, 'iv': 18.0, 'pair': 1.8}      # measured CPU cost per case (root + derived menu) / per transition
+TARGET_S = {'quick': 15.0, 'thorough': 130.0}
 
 
 def shards(tier, seed):
@@ -224,11 +225,12 @@ def shards(tier, seed):
     out.append({'section': 'rl', 'tier': tier, 'seed': seed})
     for si, (g, modes, kmax) in enumerate(_pairs_slices(tier, seed)):
         nt = _bg_count([g], modes)
-        k = max(1, round(nt * nt * 6 * COST_MS['pair'] / 1000.0 / target))
+        nm = len(list(_iv_cases(g, kmax, 'sorted')))
+        k = max(1, round((nt * nt * 6 + nm * nm * 2) * COST_MS['pair'] / 1000.0 / target))
         for p in range(k):
             out.append({'section': 'pairs', 'slice': si, 'part': p, 'of': k, 'tier': tier, 'seed': seed})
     for ri, depth in _deep_plan(tier, seed):
-        k = {2: 2 if tier == 'quick' else 1, 3: 6}[depth]
+        k = 1 if tier == 'quick' else 2
         for p in range(k):
             out.append({'section': 'deep', 'rootset': ri, 'depth': depth, 'part': p, 'of': k, 'tier': tier, 'seed': seed})
     return out
@@ -720,7 +722,7 @@ def _orders(ivs, orders):
                 seen.append(list(p))
         return seen
     out = [ivs]
-    if ivs[::-1] != ivs:
+    if orders != 'sorted' and ivs[::-1] != ivs:
         out.append(ivs[::-1])
     return out
 
